@@ -175,7 +175,7 @@ theorem processAll_get (arr : List (Frame × List UInt8)) (fs : Futs) (hm : ∀ 
     by_cases hp : fs.get x = some .pending
     · simp only [hp, ↓reduceIte, arrOutcome, List.findSome?_cons]
       cases hd : dgOf fr.dgs x with
-      | none => simp [arrOutcome]
+      | none => simp
       | some g => simp [respOutcome_ne_pending]
     · simp [hp]
 
